@@ -251,6 +251,18 @@ def decide(prop, tier='quick', seed=0, units=None, jobs=8, quiet=False):
                     lines.append('UNDECIDED property=%s Kani disagrees with the proved contract in: %s' % (prop, bad))
         except Exception as e:
             thorough['secondary_engine_error'] = repr(e)[:300]
+        # (d) sensitivity self-test: every stored seeded change that this property's check caught when it was stored must still be caught
+        #     (scratch copy of the working tree + patch; informative only: it speaks about the machinery, not about the tree, so it never
+        #     changes the verdict; a change that is no longer caught is printed as a WARNING line)
+        if not _SCRATCH and not os.environ.get('VERIF_NO_SELFTEST'):
+            try:
+                st = seeded_selftest(prop)
+                thorough['seeded_change_selftest'] = st
+                for sid, v in sorted(st.items()):
+                    if v.get('was_detected') and v.get('exit') != 1:
+                        lines.append('WARNING property=%s seeded change %s was caught when stored and now gives exit %s' % (prop, sid, v.get('exit')))
+            except Exception as e:
+                thorough['seeded_change_selftest_error'] = repr(e)[:300]
     wall = time.time() - t0
     os.makedirs(EVID_DIR, exist_ok=True)
     ev = dict(
@@ -285,6 +297,36 @@ def decide(prop, tier='quick', seed=0, units=None, jobs=8, quiet=False):
         print('%s: %d obligations in %d functions, %d failed, %d known finding(s), units %s, %.1fs' % (
             prop, n_obl, len(fn_list), len(seen), len(kseen), ','.join('%s=%s' % (r.unit, unit_status(r)) for r in results), wall))
     return rc
+
+
+def seeded_selftest(prop):
+    """run this property's quick check against every stored seeded change that targets it (scratch copy + patch)"""
+    import subprocess
+    import tempfile
+    out = {}
+    sd = os.path.join(ROOT, 'seeded')
+    for sid in sorted(os.listdir(sd)) if os.path.isdir(sd) else []:
+        mp = os.path.join(sd, sid, 'meta.json')
+        pp = os.path.join(sd, sid, 'patch.diff')
+        if sid.startswith('_') or not (os.path.exists(mp) and os.path.exists(pp)):
+            continue
+        meta = json.load(open(mp))
+        if meta.get('breaks_property') != prop:
+            continue
+        d = tempfile.mkdtemp(prefix='vself.')
+        try:
+            subprocess.run('git ls-files | rsync -a --files-from=- . %s/' % d, shell=True, cwd=REPO, check=True)
+            pr = subprocess.run('patch -s -p1 < %s' % pp, shell=True, cwd=d, capture_output=True, text=True)
+            if pr.returncode != 0:
+                out[sid] = dict(exit=None, note='patch does not apply to the current tree', was_detected=bool(meta.get('detected_for_target')))
+                continue
+            env = dict(os.environ, VERIF_REPO=d, VERIF_EVIDENCE_DIR=os.path.join(d, '.verif_out'))
+            q = subprocess.run([sys.executable, '-m', 'vf.check', prop, '--tier', 'quick'], cwd=ROOT, env=env, capture_output=True, text=True)
+            first = [l for l in q.stdout.split('\n') if l.startswith('VIOLATION') or l.startswith('UNDECIDED')][:1]
+            out[sid] = dict(exit=q.returncode, first_line=(first[0][:240] if first else ''), was_detected=bool(meta.get('detected_for_target')))
+        finally:
+            shutil.rmtree(d, ignore_errors=True)
+    return out
 
 
 def try_counterexample(prop, fl):
